@@ -1,13 +1,253 @@
 package main
 
-type History struct{ s *Sim }
+// History: what the monitors need to know about the run, observed from outside the NodeActors
+// (member sets and statuses before / after every step, who was running, what was delivered to whom).
 
-func newHistory(s *Sim) *History                         { return &History{s: s} }
-func (h *History) onStart(n *SNode)                      {}
-func (h *History) onStop(n *SNode, left bool)            {}
-func (h *History) onLeave(n *SNode, sent []*Packet)      {}
-func (h *History) beforeFd(n *SNode)                     {}
-func (h *History) beforeDeliver(n *SNode, p *Packet)     {}
-func (h *History) afterDeliver(n *SNode, p *Packet)      {}
-func (h *History) beforeForceDown(n *SNode, id string)   {}
-func (h *History) afterStep(k stepKind, addr string)     {}
+import (
+	"fmt"
+	"sort"
+
+	"github.com/kercylan98/vivid/internal/cluster"
+)
+
+type entry struct {
+	gen    int
+	lc     uint64
+	status cluster.MemberStatus
+	ts     int64
+	addr   string
+}
+
+// what observer X knows about the history of member id M in its view
+type memHist struct {
+	removedBy      string // "", "fd", "force": how M last disappeared from X's view
+	removedAt      int64
+	removedLive    bool // M was a running node when X removed it
+	removedFF      bool // ... and the removal happened in the fault-free phase
+	removedDead    bool // M was already dead when X removed it
+	relearned      bool // M re-appeared after a removal
+	relearnedDead  bool // ... while M was dead
+	suspectAt      int64
+	suspectFF      bool   // the Suspect status was set in the fault-free phase
+	suspectHow     string // "fd" (this node's failure detector) or "learned" (copied from a peer's view)
+	everPresent    bool
+}
+
+type obs struct {
+	snap  map[string]entry    // member id -> entry after the last step
+	mem   map[string]*memHist // member id -> history
+	heard map[string]int64    // sender address -> last delivery time of a packet from it
+	fdTicks int
+}
+
+type deadRec struct {
+	addr string
+	left bool
+	at   int64
+}
+
+type History struct {
+	s        *Sim
+	o        map[string]*obs     // by observer address (reset when the process restarts)
+	dead     map[string]deadRec  // node id -> how it stopped
+	ffSince  int64               // start of the fault-free phase (-1 = fault phase)
+	lost     map[[2]string]int64 // (src,dst) -> last time a packet or ask between them was dropped
+	hits     []hit               // monitor hits raised while stepping
+	causes   map[string]bool     // cause prefixes seen in the fault-free phase of this scenario
+	changeEv []changeRec         // change events published in the fault-free phase
+	leaveNotes []string
+}
+
+type hit struct{ name, detail string }
+
+type changeRec struct {
+	at   int64
+	addr string
+	kind int
+	text string
+}
+
+func newHistory(s *Sim) *History {
+	return &History{s: s, o: map[string]*obs{}, dead: map[string]deadRec{}, ffSince: -1, lost: map[[2]string]int64{}, causes: map[string]bool{}}
+}
+
+func viewEntries(n *SNode) map[string]entry {
+	out := map[string]entry{}
+	for id, m := range n.actor.XVView().Members {
+		if m != nil {
+			out[id] = entry{m.Generation, m.LogicalClock, m.Status, m.Timestamp, m.Address}
+		}
+	}
+	return out
+}
+
+func (h *History) runningID(id string) *SNode {
+	for _, n := range h.s.nodes {
+		if n.cfg.ID == id {
+			return n
+		}
+	}
+	return nil
+}
+
+func (h *History) onStart(n *SNode) {
+	h.o[n.cfg.Addr] = &obs{snap: map[string]entry{}, mem: map[string]*memHist{}, heard: map[string]int64{}}
+	delete(h.dead, n.cfg.ID)
+}
+
+func (h *History) onStop(n *SNode, left bool) {
+	delete(h.o, n.cfg.Addr)
+	h.dead[n.cfg.ID] = deadRec{n.cfg.Addr, left, h.s.now}
+}
+
+// onLeave: what did the leaving node tell its peers?
+func (h *History) onLeave(n *SNode, sent []*Packet) {
+	note := fmt.Sprintf("%s left at t=%d: ", n.cfg.Addr, h.s.now)
+	if len(sent) == 0 {
+		note += "no GossipMessage sent (every target's last known vector equals the own one)"
+	} else {
+		st := "absent"
+		if m := sent[0].view.Members[n.cfg.ID]; m != nil {
+			st = m.Status.String()
+		}
+		note += fmt.Sprintf("%d GossipMessages sent, each listing the leaver with status %q", len(sent), st)
+	}
+	h.leaveNotes = append(h.leaveNotes, note)
+}
+
+func (h *History) beforeFd(n *SNode) {
+	if o := h.o[n.cfg.Addr]; o != nil {
+		o.fdTicks++
+	}
+}
+func (h *History) beforeDeliver(n *SNode, p *Packet) {}
+func (h *History) afterDeliver(n *SNode, p *Packet) {
+	if o := h.o[n.cfg.Addr]; o != nil {
+		o.heard[p.src] = h.s.now
+	}
+}
+func (h *History) beforeForceDown(n *SNode, id string) {}
+
+func (h *History) noteLoss(src, dst string) { h.lost[[2]string{src, dst}] = h.s.now }
+
+func (h *History) hit(name, detail string) { h.hits = append(h.hits, hit{name, detail}) }
+
+// afterStep diffs every running node's view against its snapshot and records the transitions.
+func (h *History) afterStep(kind stepKind, addr string) {
+	s := h.s
+	ff := h.ffSince >= 0
+	addrs := make([]string, 0, len(s.nodes))
+	for a := range s.nodes {
+		addrs = append(addrs, a)
+	}
+	sort.Strings(addrs)
+	for _, a := range addrs {
+		n := s.nodes[a]
+		o := h.o[a]
+		if o == nil {
+			continue
+		}
+		cur := viewEntries(n)
+		ids := map[string]bool{}
+		for id := range cur {
+			ids[id] = true
+		}
+		for id := range o.snap {
+			ids[id] = true
+		}
+		sorted := make([]string, 0, len(ids))
+		for id := range ids {
+			sorted = append(sorted, id)
+		}
+		sort.Strings(sorted)
+		for _, id := range sorted {
+			was, had := o.snap[id]
+			is, has := cur[id]
+			mh := o.mem[id]
+			if mh == nil {
+				mh = &memHist{}
+				o.mem[id] = mh
+			}
+			subject := h.runningID(id)
+			live := subject != nil && subject != n
+			_, isDead := h.dead[id]
+			switch {
+			case had && !has: // removed
+				by := "?"
+				switch kind {
+				case kFd:
+					by = "fd"
+				case kForceDown:
+					by = "force"
+				}
+				mh.removedBy, mh.removedAt, mh.removedLive, mh.removedFF, mh.removedDead = by, s.now, live, ff, isDead
+				mh.relearned, mh.relearnedDead = false, false
+				if kind == kFd && live && ff {
+					h.fdOnLive("live-member-removed", n, o, subject, was)
+				}
+			case !had && has: // learned
+				if mh.removedBy != "" {
+					mh.relearned = true
+					mh.relearnedDead = isDead
+					if isDead && ff && mh.removedDead {
+						h.causes["resurrected"] = true
+						h.hit("dead-member-resurrected", fmt.Sprintf("by-merge: %s removed the stopped node %s (%s) at t=%d and lists it again at t=%d after a %s step (merge never removes, any peer that still lists it brings it back)",
+							a, id, is.addr, mh.removedAt, s.now, kindName(kind)))
+					}
+				}
+				mh.everPresent = true
+				if is.status == cluster.MemberStatusSuspect {
+					mh.suspectAt, mh.suspectFF, mh.suspectHow = s.now, ff, "learned"
+				}
+			case had && has:
+				if was.status != cluster.MemberStatusSuspect && is.status == cluster.MemberStatusSuspect {
+					how := "learned"
+					if kind == kFd {
+						how = "fd"
+					}
+					mh.suspectAt, mh.suspectFF, mh.suspectHow = s.now, ff, how
+					if kind == kFd && live && ff {
+						h.fdOnLive("live-member-suspected", n, o, subject, was)
+					}
+				}
+			}
+		}
+		o.snap = cur
+	}
+	if ff {
+		for _, e := range s.evs {
+			if e.kind <= 2 {
+				h.changeEv = append(h.changeEv, changeRec{s.now, e.addr, e.kind, fmt.Sprintf("%s at %s (t=%d, %s step)", evName(e.kind), e.addr, s.now, kindName(kind))})
+			}
+		}
+	}
+}
+
+func kindName(k stepKind) string {
+	return [...]string{"start", "join-retry", "gossip-tick", "failure-detection-tick", "deliver", "drop", "crash", "leave", "force-down"}[k]
+}
+func evName(k int) string {
+	return [...]string{"ClusterMembersChangedEvent", "ClusterViewChangedEvent", "ClusterLeaderChangedEvent", "QuorumLost", "QuorumReached", "DCHealthChanged", "LeaveCompleted"}[k]
+}
+
+// fdOnLive: in the fault-free phase the failure detector of n suspected / removed a node that is running and reachable.
+func (h *History) fdOnLive(name string, n *SNode, o *obs, subject *SNode, was entry) {
+	s := h.s
+	T := int64(n.cfg.FD)
+	last, heardEver := o.heard[subject.cfg.Addr]
+	lostAt, lost := h.lost[[2]string{subject.cfg.Addr, n.cfg.Addr}]
+	silent := !heardEver || last < s.now-T
+	if silent && !(lost && lostAt >= s.now-T && lostAt >= h.ffSince) {
+		h.causes["fd-on-silent-live-peer"] = true
+		lastS := "never"
+		if heardEver {
+			lastS = fmt.Sprintf("t=%d", last)
+		}
+		h.hit(name, fmt.Sprintf("fd-on-silent-live-peer: at t=%d the failure detector of %s hit the running, reachable node %s (%s): timeout %d, last GossipMessage from it delivered %s, none lost since the faults stopped at t=%d — its gossip is suppressed while the version vectors are equal, so LastSeen is never refreshed",
+			s.now, n.cfg.Addr, subject.cfg.ID, subject.cfg.Addr, T, lastS, h.ffSince))
+		return
+	}
+	h.causes["unexplained"] = true
+	h.hit(name, fmt.Sprintf("unexplained: at t=%d the failure detector of %s hit the running node %s (%s) although a GossipMessage from it was delivered at t=%d (timeout %d)",
+		s.now, n.cfg.Addr, subject.cfg.ID, subject.cfg.Addr, last, T))
+}
